@@ -40,7 +40,7 @@ theorem copyIf_height (b : Bool) (n : INode) (s : MSt) : (copyIf b n s).1.height
 
 theorem copyIf_oof (b : Bool) (n : INode) (s : MSt) : (copyIf b n s).2.oof = s.oof := by
   unfold copyIf; split
-  · simp [copyM]
+  · rfl
   · rfl
 
 /-- contract: on arguments of height ≤ K the merge function leaves the out-of-fuel flag alone and
@@ -120,8 +120,8 @@ theorem INode.setKids_height (n : INode) (ks : List INode) :
   simp [INode.setKids, INode.height]
 
 theorem copyChildM_height (t : Str) (n : INode) (s : MSt) :
-    (copyChildM t n s).1.height = n.height ∧ (copyChildM t n s).2.oof = s.oof := by
-  simp [copyChildM, copyTree_height]
+    (copyChildM t n s).1.height = n.height ∧ (copyChildM t n s).2.oof = s.oof :=
+  ⟨copyTree_height _ _, rfl⟩
 
 theorem foldRight_height (fl : MergeFlags) (eqf : MergeFn) (B : Nat) (hf : HFn (B - 1) eqf)
     (root : Nat) (rootTag : Str) (kids cur : List INode) (st : MSt)
@@ -212,7 +212,7 @@ theorem mergeNodesF_fuel (fl : MergeFlags) (fuel : Nat) :
           have := heightList_le.mp (Nat.le_refl _) n hn; rw [hcl] at this; omega)
         (fun c hc => by have := heightList_le.mp (Nat.le_refl _) c hc; omega)
       refine ⟨_, _, rfl, ?_, ?_⟩
-      · rw [hf.1]; simp [copyM]
+      · rw [hf.1]; rfl
       · simp only [INode.height]
         have := heightList_le.mpr hf.2
         rw [INode.height_eq l, INode.height_eq r]
